@@ -873,6 +873,37 @@ pub fn run(case: &str, ctx: &mut Ctx) -> String {
             let o = guarded(move || (crate::c08gen::run_prim(&name, &bs), vec![]));
             finish(o, n, "-", ctx)
         }
+        // `e <cap> <frame hex>`: the error tail of the row iterator (items yielded after the first failing row)
+        Some("e") if w.len() == 3 => {
+            let (Ok(cap), Some(bs)) = (w[1].parse::<usize>(), unhex(w[2])) else { return "bad-case".into() };
+            let n = bs.len();
+            let o = guarded(move || (error_tail(&bs, cap), vec![]));
+            finish(o, n, "-", ctx)
+        }
         _ => "bad-case".to_owned(),
     }
+}
+
+/// Iterates a Rows result WITHOUT stopping at the first error (at most `cap` items): `RawRowIterator` keeps
+/// yielding the error of the first failing row for every remaining announced row.
+fn error_tail(bs: &[u8], cap: usize) -> String {
+    if bs.len() < 9 {
+        return "err short".into();
+    }
+    let r = match result::deserialize_with_features(Bytes::copy_from_slice(&bs[9..]), None, &ProtocolFeatures::default()) {
+        Ok(r) => r,
+        Err(_) => return "err result".into(),
+    };
+    let dm = match r.deserialize_metadata() {
+        Ok(result::ResultWithDeserializedMetadata::Rows((dm, _))) => dm,
+        Ok(_) => return "err notrows".into(),
+        Err(_) => return "err meta".into(),
+    };
+    let (mut ok, mut err) = (0usize, 0usize);
+    if let Ok(it) = dm.rows_iter::<Row>() {
+        for r in it.take(cap) {
+            if r.is_ok() { ok += 1 } else { err += 1 }
+        }
+    }
+    format!("tail rc={} ok={} err={}", dm.rows_count(), ok, err)
 }
